@@ -283,7 +283,7 @@ void BuildStructName(char* pResult, unsigned ResultLen, char const* pName) {
     }
 }
 
-void AddStructSymbol(char const* pName, LargeWord Value) {
+struct sSymbolEntry* AddStructSymbol(char const* pName, LargeWord Value) {
     PStructStack ZStruct;
 
     /* what we get is offset/length in current structure.  Add to
@@ -302,8 +302,25 @@ void AddStructSymbol(char const* pName, LargeWord Value) {
                 tmp, sizeof(tmp), "%s%c%s", pInnermostNamedStruct->Name,
                 pInnermostNamedStruct->StructRec->ExtChar, pName);
         StrCompMkTemp(&TmpComp, tmp, sizeof(tmp));
-        EnterIntSymbol(&TmpComp, Value, SegNone, False);
+        return EnterIntSymbolWithFlags(
+                &TmpComp, Value, SegNone, False, eSymbolFlag_StructElem);
     }
+}
+
+/*!------------------------------------------------------------------------
+ * \fn     StructParentOffset(void)
+ * \brief  sum of the offsets of all enclosing structures, i.e. what
+ *         AddStructSymbol() adds to an offset in the innermost structure
+ * ------------------------------------------------------------------------ */
+
+LargeWord StructParentOffset(void) {
+    PStructStack ZStruct;
+    LargeWord    Result = 0;
+
+    for (ZStruct = StructStack; ZStruct && ZStruct->Next; ZStruct = ZStruct->Next) {
+        Result += ZStruct->SaveCurrPC;
+    }
+    return Result;
 }
 
 void BumpStructLength(PStructRec StructRec, LongInt Length) {
